@@ -15,6 +15,9 @@
 //	get <mode d|s|c> <cid> <ans: err|blk> <nOk 0|1>     GetBlock directly / through NewSession / through ContextWithSession
 //	getmany <mode> <nf: -|n> <cid>* | <err | blk*>      GetBlocks; after `|` the exchange's answer
 //	putfail <k> <sticky 0|1> | putfail -               the k-th blockstore write call (Put / PutMany) from now fails
+//	getfail <k> <sticky 0|1> | getfail -               the k-th blockstore.Get call from now fails (not "not found")
+//	cancelget <mode> <k> <cid>* | <blk>*               GetBlocks, context cancelled after k received blocks (last op)
+//	mode: d direct | s fresh NewSession | c fresh ContextWithSession | S<k> / C<k> persistent session / context
 //	del <cid>      peek <cid>                           DeleteBlock; blockstore.Get behind the service's back
 package bsx
 
@@ -206,6 +209,28 @@ type recStore struct {
 	// scripted write failure: failAt = number of write calls (Put / PutMany) that still succeed, -1 = none
 	failAt int
 	sticky bool
+	// the same for Get calls
+	rfailAt int
+	rsticky bool
+	// a scripted read failure fired during the current op
+	readFailed bool
+}
+
+var errRead = errors.New("scripted blockstore read error")
+
+func (s *recStore) Get(ctx context.Context, k cid.Cid) (blocks.Block, error) {
+	switch {
+	case s.rfailAt < 0:
+	case s.rfailAt > 0:
+		s.rfailAt--
+	default:
+		if !s.rsticky {
+			s.rfailAt = -1
+		}
+		s.readFailed = true
+		return nil, errRead
+	}
+	return s.Blockstore.Get(ctx, k)
 }
 
 // failNow consumes one write call of the failure script.
@@ -265,13 +290,14 @@ var (
 
 // scripted exchange: the answers are set before each op.
 type exch struct {
-	r        *rec
-	t        *cidTab
-	onIO     func(kind string, c cid.Cid)
-	one      blocks.Block   // nil = error
-	many     []blocks.Block // answer of GetBlocks
-	manyErr  bool
-	notifyOK int // number of NotifyNewBlocks calls that still succeed; <0 = all
+	r           *rec
+	t           *cidTab
+	onIO        func(kind string, c cid.Cid)
+	one         blocks.Block   // nil = error
+	many        []blocks.Block // answer of GetBlocks
+	manyErr     bool
+	notifyOK    int // number of NotifyNewBlocks calls that still succeed; <0 = all
+	newSessions int // calls of SessionExchange.NewSession
 }
 
 func (e *exch) getBlock(tag string, c cid.Cid) (blocks.Block, error) {
@@ -323,7 +349,10 @@ func (e *exch) Close() error { return nil }
 
 type sesExch struct{ *exch }
 
-func (e sesExch) NewSession(context.Context) exchange.Fetcher { return sesFetcher{e.exch} }
+func (e sesExch) NewSession(context.Context) exchange.Fetcher {
+	e.exch.newSessions++
+	return sesFetcher{e.exch}
+}
 
 type sesFetcher struct{ e *exch }
 
@@ -361,6 +390,8 @@ func verrName(err error) string {
 		return "notify"
 	case errors.Is(err, errStore):
 		return "storeerr"
+	case errors.Is(err, errRead):
+		return "readerr"
 	}
 	return "other"
 }
@@ -407,6 +438,7 @@ func Exec(c vh.Case, o *vh.Out, mon Monitors) {
 		o.Fail(sig, format, a...)
 	}
 
+	var rs *recStore
 	onIO := func(kind string, k cid.Cid) {
 		if mon.C04 {
 			if err := verifcid.ValidateCid(al, k); err != nil {
@@ -414,12 +446,12 @@ func Exec(c vh.Case, o *vh.Out, mon Monitors) {
 			}
 		}
 		if mon.C05 && kind == "request" {
-			if has, _ := raw.Has(ctx, k); has {
+			// a stored block whose blockstore.Get just failed cannot be served locally: not a violation
+			if has, _ := raw.Has(ctx, k); has && !(rs != nil && rs.readFailed) {
 				fail("local-block-requested", "%s is in the blockstore and was requested from the exchange", tab.tok(k))
 			}
 		}
 	}
-	var rs *recStore
 	fromExchange := func(b blocks.Block) bool {
 		if ex == nil {
 			return false
@@ -465,19 +497,49 @@ func Exec(c vh.Case, o *vh.Out, mon Monitors) {
 			}
 		}
 	}
+	nsBefore := 0
+	nsTag := func() string { // NewSession calls made by the current get / getmany
+		n := ex.newSessions - nsBefore
+		return fmt.Sprintf(" ns=%d", n)
+	}
 	flush := func(res string, emits []blocks.Block) {
 		o.Emit("%s emits=[%s] evs=[%s]", res, tab.blkToks(emits), strings.Join(r.take(), " "))
 	}
+	flushNS := func(res string, emits []blocks.Block) {
+		o.Emit("%s emits=[%s] evs=[%s]%s", res, tab.blkToks(emits), strings.Join(r.take(), " "), nsTag())
+	}
+	sessions := map[string]*blockservice.Session{}
+	sesCtxs := map[string]context.Context{}
 	getter := func(mode string) (blockservice.BlockGetter, context.Context) {
-		switch mode {
-		case "s":
+		switch {
+		case mode == "s":
 			return blockservice.NewSession(ctx, bs), ctx
-		case "c":
+		case mode == "c":
 			return bs, blockservice.ContextWithSession(ctx, bs)
+		case strings.HasPrefix(mode, "S"): // a Session object that lives across ops
+			if sessions[mode] == nil {
+				sessions[mode] = blockservice.NewSession(ctx, bs)
+				o.Kind("persistent-session")
+			}
+			return sessions[mode], ctx
+		case strings.HasPrefix(mode, "C"): // a context with an embedded session that lives across ops
+			if sesCtxs[mode] == nil {
+				sesCtxs[mode] = blockservice.ContextWithSession(ctx, bs)
+				o.Kind("persistent-session")
+			}
+			if strings.HasSuffix(mode, "0") {
+				return bs, sesCtxs[mode]
+			}
+			return blockservice.NewSession(sesCtxs[mode], bs), sesCtxs[mode] // NewSession reuses the embedded one
 		}
 		return bs, ctx
 	}
 
+	defer func() {
+		if bs != nil {
+			bs.Close() // BlockService.Close = Exchange().Close()
+		}
+	}()
 	for _, line := range c.Ops {
 		f := strings.Fields(line)
 		if f[0] != "cfg" && f[0] != "vrow" && f[0] != "al" && bs == nil {
@@ -497,7 +559,7 @@ func Exec(c vh.Case, o *vh.Out, mon Monitors) {
 			case "2":
 				exi = sesExch{ex}
 			}
-			rs = &recStore{Blockstore: raw, r: r, t: tab, onIO: onIO, polluted: map[string]bool{}, failAt: -1}
+			rs = &recStore{Blockstore: raw, r: r, t: tab, onIO: onIO, polluted: map[string]bool{}, failAt: -1, rfailAt: -1}
 			bs = blockservice.New(rs, exi,
 				blockservice.WithAllowlist(al), blockservice.WriteThrough(f[1] == "0"))
 			o.Kind("ex" + f[2])
@@ -567,12 +629,13 @@ func Exec(c vh.Case, o *vh.Out, mon Monitors) {
 			if f[4] == "0" {
 				ex.notifyOK = 0
 			}
+			nsBefore, rs.readFailed = ex.newSessions, false
 			g, gctx := getter(f[1])
 			b, err := g.GetBlock(gctx, k)
 			ex.notifyOK = -1
 			o.Kind("get-" + verrName(err))
 			if err != nil {
-				flush(verrName(err), nil)
+				flushNS(verrName(err), nil)
 				break
 			}
 			checkEmit(b, []cid.Cid{k})
@@ -580,7 +643,7 @@ func Exec(c vh.Case, o *vh.Out, mon Monitors) {
 				o.Kind("get-from-exchange")
 				o.Nontrivial()
 			}
-			flush("blk", []blocks.Block{b})
+			flushNS("blk", []blocks.Block{b})
 		case "getmany":
 			sep := len(f)
 			for i, t := range f {
@@ -604,6 +667,7 @@ func Exec(c vh.Case, o *vh.Out, mon Monitors) {
 			if f[2] != "-" {
 				ex.notifyOK = vh.Atoi(f[2])
 			}
+			nsBefore, rs.readFailed = ex.newSessions, false
 			g, gctx := getter(f[1])
 			var got []blocks.Block
 			nex := 0
@@ -622,7 +686,60 @@ func Exec(c vh.Case, o *vh.Out, mon Monitors) {
 			if len(got) > nex {
 				o.Kind("getmany-local-hit")
 			}
-			flush("done", got)
+			if rs.readFailed {
+				o.Kind("getmany-read-failed")
+			}
+			flushNS("done", got)
+		case "cancelget":
+			// cancelget <mode> <k> <cid>* | <blk>* : GetBlocks whose context is cancelled by the consumer after it
+			// received k blocks. What happens after the cancellation is scheduling-dependent, so the outcome is not
+			// diffed (constant output, last op of a case); the monitors check everything that IS handed out, and
+			// that the channel gets closed.
+			sep := len(f)
+			for i, t := range f {
+				if t == "|" {
+					sep = i
+				}
+			}
+			var ks []cid.Cid
+			for _, t := range f[3:sep] {
+				ks = append(ks, tab.cid(t))
+			}
+			ex.many, ex.manyErr, ex.notifyOK = nil, false, -1
+			for _, t := range f[min(sep+1, len(f)):] {
+				ex.many = append(ex.many, tab.blk(t))
+			}
+			rs.readFailed = false
+			g, gctx := getter(f[1])
+			cctx, cancel := context.WithCancel(gctx)
+			n, lim := 0, vh.Atoi(f[2])
+			if lim == 0 {
+				cancel()
+			}
+			for b := range g.GetBlocks(cctx, ks) {
+				checkEmit(b, ks)
+				n++
+				if n == lim {
+					cancel()
+				}
+			}
+			cancel()
+			r.take()
+			o.Kind("cancelled-getmany")
+			o.Emit("cancelled")
+		case "getfail":
+			// the k-th blockstore.Get call from now on fails with an error that is not "not found"
+			if rs == nil {
+				o.Emit("bad-op")
+				break
+			}
+			if f[1] == "-" {
+				rs.rfailAt = -1
+			} else {
+				rs.rfailAt, rs.rsticky = vh.Atoi(f[1]), f[2] == "1"
+				o.Kind("store-read-failure")
+			}
+			o.Emit("ok")
 		case "del":
 			err := bs.DeleteBlock(ctx, tab.cid(f[1]))
 			flush(verrName(err), nil)
